@@ -318,3 +318,14 @@ Qed.
 Theorem call_flush_needed : en (fit_pos K) < en s <-> K * w_step w + w_dur w < en s - st s.
 Proof. unfold fit_pos, en, st; cbn [fst snd]. lia. Qed.
 End Call.
+
+(* window(support) looks at the called window's duration and step only: its own start and end never matter *)
+Theorem call_ignores_own_bounds eps w1 w2 segments align_last :
+  w_dur w1 = w_dur w2 -> w_step w1 = w_step w2 ->
+  win_call eps w1 segments align_last = win_call eps w2 segments align_last.
+Proof.
+  intros Hd Hs. unfold win_call. apply flat_map_ext. intro s. unfold call_one. now rewrite Hd, Hs.
+Qed.
+(* ... and a support segment shorter than the window contributes nothing, whatever align_last *)
+Theorem call_short_segment eps w s align_last : duration eps s < w_dur w -> call_one eps w s align_last = [].
+Proof. intro H. unfold call_one. apply Z.ltb_lt in H. now rewrite H. Qed.
